@@ -518,6 +518,73 @@ Fixpoint join_arr_m (sep : list thunk) (items : list thunk) (first : bool) (acc 
       end
   end.
 
+(* stage-2 builtins *)
+Fixpoint all_m (items : list thunk) (d : N) : M value :=
+  match items with
+  | [] => ret (VBool true)
+  | it :: r =>
+      let* v := forceT it d in
+      match v with
+      | VBool true => all_m r d
+      | VBool false => ret (VBool false)
+      | _ => kind "Other"
+      end
+  end.
+
+Fixpoint any_m (items : list thunk) (d : N) : M value :=
+  match items with
+  | [] => ret (VBool false)
+  | it :: r =>
+      let* v := forceT it d in
+      match v with
+      | VBool true => ret (VBool true)
+      | VBool false => any_m r d
+      | _ => kind "Other"
+      end
+  end.
+
+Fixpoint sum_m (items : list thunk) (acc : f64) (d : N) : M value :=
+  match items with
+  | [] => lift (check_num acc)
+  | it :: r =>
+      let* v := forceT it d in
+      match v with
+      | VNum x => sum_m r (f_add acc x) d
+      | _ => kind "Other"
+      end
+  end.
+
+Fixpoint flatten_m (items : list thunk) (acc : list thunk) (d : N) : M value :=
+  match items with
+  | [] => ret (VArr acc)
+  | it :: r =>
+      let* v := forceT it d in
+      match v with
+      | VArr xs => flatten_m r (acc ++ xs) d
+      | _ => kind "Other"
+      end
+  end.
+
+Fixpoint contains_m (x : value) (items : list thunk) (d : N) : M value :=
+  match items with
+  | [] => ret (VBool false)
+  | it :: r =>
+      let* vi := forceT it d in
+      let* e := equals x vi d in
+      if e then ret (VBool true) else contains_m x r d
+  end.
+
+Fixpoint count_m (x : value) (items : list thunk) (n : N) (d : N) : M value :=
+  match items with
+  | [] => ret (VNum (f_of_N n))
+  | it :: r =>
+      let* vi := forceT it d in
+      let* e := equals x vi d in
+      count_m x r (if e then n + 1 else n) d
+  end.
+
+Definition char_thunks (s : str) : list thunk := map (fun c => Tv (VStr [c])) s.
+
 Definition object_has (o f h : value) : M value :=
   match o with
   | VObj ls _ =>
@@ -596,6 +663,32 @@ Definition call_builtin (bi : builtin) (args : list thunk) (d : N) : M value :=
         | BiObjectFields => object_fields v (VBool false)
         | BiObjectFieldsAll => object_fields v (VBool true)
         | BiToString => let* s := to_string v d in ret (VStr s)
+        | BiAll => match v with VArr items => all_m items d | _ => argtype end
+        | BiAny => match v with VArr items => any_m items d | _ => argtype end
+        | BiSum => match v with
+                   | VArr [] => ret (VNum f_zero)
+                   | VArr items => sum_m items f_zero d
+                   | _ => argtype
+                   end
+        | BiReverse => match v with
+                       | VStr s => ret (VArr (char_thunks (rev s)))
+                       | VArr items => ret (VArr (rev items))
+                       | _ => argtype
+                       end
+        | BiStringChars => match v with VStr s => ret (VArr (char_thunks s)) | _ => argtype end
+        | BiChar => match v with
+                    | VNum f => match f_trunc_Z f with
+                                | Some z => if is_scalar z then ret (VStr [Z.to_N z]) else kind "Other"
+                                | None => kind "Other"
+                                end
+                    | _ => argtype
+                    end
+        | BiCodepoint => match v with
+                         | VStr [c] => ret (VNum (f_of_N c))
+                         | VStr _ => kind "Other"
+                         | _ => argtype
+                         end
+        | BiFlattenArrays => match v with VArr items => flatten_m items [] d | _ => argtype end
         | _ => lift (Panic "RefEval:call_builtin:arity")
         end
       end
@@ -608,8 +701,33 @@ Definition call_builtin (bi : builtin) (args : list thunk) (d : N) : M value :=
           | VStr s => let* _ := emit s in ret rest
           | _ => argtype
           end
+      | BiContains =>
+          let* arr := forceT a0 d in
+          match arr with
+          | VArr [] => ret (VBool false)
+          | VArr items => let* x := forceT a1 d in contains_m x items d
+          | _ => argtype
+          end
+      | BiCount =>
+          let* arr := forceT a0 d in
+          match arr with
+          | VArr [] => ret (VNum f_zero)
+          | VArr items => let* x := forceT a1 d in count_m x items 0 d
+          | _ => argtype
+          end
+      | BiMember =>
+          let* arr := forceT a0 d in
+          match arr with
+          | VStr s =>
+              let* x := forceT a1 d in
+              match x with VStr needle => ret (VBool (is_infix needle s)) | _ => argtype end
+          | VArr [] => ret (VBool false)
+          | VArr items => let* x := forceT a1 d in contains_m x items d
+          | _ => argtype
+          end
       | BiObjectHas | BiObjectHasAll | BiObjectFieldsEx | BiPrimitiveEquals | BiEquals | BiCompare | BiMakeArray
-      | BiMap | BiFilter | BiRange | BiRepeat | BiJoin | BiMod | BiModulo | BiAssertEqual =>
+      | BiMap | BiFilter | BiRange | BiRepeat | BiJoin | BiMod | BiModulo | BiAssertEqual
+      | BiStartsWith | BiEndsWith | BiMapWithIndex =>
         let* x := forceT a0 d in
         let* y := forceT a1 d in
         match bi with
@@ -713,6 +831,24 @@ Definition call_builtin (bi : builtin) (args : list thunk) (d : N) : M value :=
                 end
             | _ => argtype
             end
+        | BiStartsWith =>
+            match x with
+            | VStr a => match y with VStr b => ret (VBool (is_prefix b a)) | _ => argtype end
+            | _ => argtype
+            end
+        | BiEndsWith =>
+            match x with
+            | VStr a => match y with VStr b => ret (VBool (is_suffix b a)) | _ => argtype end
+            | _ => argtype
+            end
+        | BiMapWithIndex =>
+            if is_fun x then
+              match y with
+              | VStr s => ret (VArr (map (fun p => TCall x [Tv (VNum (f_of_N (fst p))); snd p]) (combine (seqN (lenN s)) (char_thunks s))))
+              | VArr items => ret (VArr (map (fun p => TCall x [Tv (VNum (f_of_N (fst p))); snd p]) (combine (seqN (lenN items)) items)))
+              | _ => argtype
+              end
+            else argtype
         | BiAssertEqual =>
             let* b := equals x y d in
             if b then ret (VBool true)
